@@ -45,6 +45,7 @@ func runC15(c *Config, r *Report) {
 	c15R4(ic, r)
 	c15R5(ic, r)
 	c15R13(ic, r)
+	c15R14(ic, r)
 	c15R6(ic, r)
 	c15R7(ic, r)
 	c15R8(ic, r)
@@ -1458,4 +1459,87 @@ func c15R13(ic *IC, r *Report) {
 		"the dependency collector looks up the keys of a keyed struct literal by name in the package scope: var a = T{b: 1}; var b = a.b is reported as a variable definition loop")
 	r.Check(litAt != token.NoPos && litAt < first, "R15.13", "getVarDependencies/function-literal-uses-resolved-symbols", at(litAt), "a function literal of the initialiser is walked with the symbols resolved by cfg",
 		"the dependency collector looks up the identifiers of a function literal of the initialiser by name in the package scope: its parameters and locals are taken for the package variables of the same name (var a = func() int { b := 1; return b }(); var b = a is reported as a variable definition loop)")
+}
+
+func init() {
+	ruleText["R15.14"] = "in the dependency collector every reference to another package variable becomes a dependency: in the case of the symbol-kind switch that tests varSym, the append to the dependency list is a direct statement of the case, and nothing before it can leave the case (no break, return, continue or goto, no nesting under a further condition) - in particular a variable declared without initialiser is a dependency too: it is zeroed by its own declaration, which must run before the initialisers that write it"
+}
+
+// c15R14: round-6 seed. Variables declared without initialiser were no longer dependencies:
+// their zeroing ran after the initialiser (a function call) that had written them.
+func c15R14(ic *IC, r *Report) {
+	info := ic.Info
+	fi := ic.fn(r, "getVarDependencies")
+	if fi == nil {
+		return
+	}
+	n := 0
+	ast.Inspect(fi.Decl.Body, func(q ast.Node) bool {
+		cc, ok := q.(*ast.CaseClause)
+		if !ok {
+			return true
+		}
+		isVar := false
+		for _, e := range cc.List {
+			ast.Inspect(e, func(z ast.Node) bool {
+				if id, ok := z.(*ast.Ident); ok {
+					if c, ok := info.Uses[id].(*types.Const); ok && c.Name() == "varSym" {
+						isVar = true
+					}
+				}
+				return true
+			})
+		}
+		if !isVar {
+			return true
+		}
+		n++
+		why := "the case appends nothing to the dependency list"
+		for _, st := range cc.Body {
+			if as, ok := st.(*ast.AssignStmt); ok && len(as.Rhs) == 1 {
+				if c, ok := unparen(as.Rhs[0]).(*ast.CallExpr); ok {
+					if id := identOf(c.Fun); id != nil && id.Name == "append" {
+						why = ""
+						break
+					}
+				}
+			}
+			leaves := ""
+			ast.Inspect(st, func(z ast.Node) bool {
+				switch y := z.(type) {
+				case *ast.FuncLit:
+					return false
+				case *ast.BranchStmt:
+					leaves = y.Tok.String() + " at " + ic.pos(y.Pos())
+				case *ast.ReturnStmt:
+					leaves = "return at " + ic.pos(y.Pos())
+				}
+				return true
+			})
+			if leaves != "" {
+				why = "the case can be left before the append (" + leaves + ")"
+				break
+			}
+			// the append nested in this statement (under a further condition)?
+			nested := false
+			ast.Inspect(st, func(z ast.Node) bool {
+				if c, ok := z.(*ast.CallExpr); ok {
+					if id := identOf(c.Fun); id != nil && id.Name == "append" {
+						nested = true
+					}
+				}
+				return true
+			})
+			if nested {
+				why = "the append is nested under " + ic.pos(st.Pos())
+				break
+			}
+		}
+		r.Check(why == "", "R15.14", fmt.Sprintf("getVarDependencies/variable-case#%d/every-variable-is-a-dependency", n), ic.pos(cc.Pos()), "the case of variable symbols appends the declaration unconditionally",
+			"in getVarDependencies "+why+": some references to package variables are not recorded as dependencies, so the variable they designate can be initialised (or zeroed, for a declaration without initialiser) after the initialiser that uses or writes it - var a = f() with f writing b, and var b int declared later, ends with b == 0")
+		return true
+	})
+	if n == 0 {
+		r.Errorf("R15.14: no case testing varSym found in getVarDependencies")
+	}
 }
